@@ -26,7 +26,7 @@ type c28Req struct {
 }
 
 func TestC28(t *testing.T) {
-	rec := ev.New("C28", "1..6 pipelined requests (GET, HEAD, POST with Content-Length / chunked / Expect: 100-continue, a malformed request or an oversized header in the middle) are written on one client connection in generated TCP segmentations; request bodies carry decoy request text; backends answer normally or right after the header section without reading the body. Oracle: responses parse in order, response i echoes request i's target, no backend ever sees a target that was only sent as body bytes. non-trivial: >=2 requests and >=1 with a body; distinct by sequence shape + segmentation")
+	rec := ev.New("C28", "1..6 pipelined requests (GET, HEAD, POST with Content-Length / chunked / Expect: 100-continue, a malformed request or an oversized header in the middle) are written on one client connection in generated TCP segmentations; request bodies carry decoy request text; backends answer normally, right after the header section without reading the body, close-delimited, or with an unsolicited interim 100 Continue first; modules answer some requests themselves. Oracle: responses parse in order, response i echoes request i's target, no backend ever sees a target that was only sent as body bytes. non-trivial: >=2 requests and >=1 with a body; distinct by sequence shape + segmentation")
 	w := startWorld(t, 2, sys.Options{MaxHeaderBytes: 8192, AfterInit: installFilters}, func(ports []int) *sys.DataConf {
 		cl := sys.Cluster{Name: "c", RetryMax: 0, TimeoutResponseHeaderMs: 3000, TimeoutReadClientMs: 3000}
 		sc := sys.SubCluster{Name: "c.sub", Weight: 100}
@@ -107,6 +107,11 @@ func TestC28(t *testing.T) {
 						RespHeader: map[string]string{"X-Echo-Target": target}}
 					hub.set(target, fs)
 					filtTargets = append(filtTargets, target)
+				case 3:
+					// the backend emits an interim 100 Continue nobody asked for (RFC 7231 6.2.1
+					// lets a server do so) before its final response
+					r.Kind += "+interim100"
+					w.setScript(target, &respScript{Interim100: true})
 				}
 			}
 			reqs = append(reqs, r)
@@ -317,4 +322,3 @@ func TestC28(t *testing.T) {
 		}
 	})
 }
-
